@@ -821,6 +821,20 @@ class Interp:
             if iv2 is not None:
                 kn.bounds[t] = T._iv_union(iv, iv2)
         kn.ineqs = [f for f in s1.kn.ineqs if f in s2.kn.ineqs]
+        # facts that hold on one arm only survive as implications
+        kn.implied = [x for x in s1.kn.implied if x in s2.kn.implied]
+        if isinstance(g, Sym):
+            ng = T.not_(g)
+            for arm_kn, guard in ((s1.kn, g), (s2.kn, ng)):
+                if not isinstance(guard, Sym):
+                    continue
+                for a in arm_kn.atoms[d:]:
+                    if a is not guard and len(kn.implied) < 200:
+                        kn.implied.append((guard, a))
+                for gg, ff in arm_kn.implied:
+                    if (gg, ff) not in kn.implied and \
+                            len(kn.implied) < 200:
+                        kn.implied.append((T.and_(guard, gg), ff))
         return State(env, store, kn)
 
     def join_objects(self, g, o1, o2):
